@@ -164,10 +164,12 @@ Definition prql_to_tokens_error (s : source) (bs be : nat) : out (option span * 
 (* Resolver::fold_function: an error of the inner fold whose span is in std.prql (source id 0) is given the span of
    the call when that is in the user's source (`e.with_span(span)` overwrites) *)
 Definition std_source_id : nat := 0.
-Definition respan_std (err_span call_span : option span) : option span :=
+Definition respan_moves (err_span call_span : option span) : bool :=
   let in_std := match err_span with Some s => Nat.eqb (sp_src s) std_source_id | None => false end in
   let call_in_user_source := match call_span with Some s => negb (Nat.eqb (sp_src s) std_source_id) | None => false end in
-  if in_std && call_in_user_source then call_span else err_span.
+  in_std && call_in_user_source.
+Definition respan_std (err_span call_span : option span) : option span :=
+  if respan_moves err_span call_span then call_span else err_span.
 
 (* the position of a character offset, as a specification: offset of the line start + column *)
 Fixpoint line_start (lens : list nat) (l : nat) : nat :=
